@@ -310,6 +310,27 @@ pub fn run_case(c: &Case, with_mock: bool) -> Outcome {
         tags.push(format!("cmp:{}", if cmp_ok { "ok".to_string() } else if cmp_s == "panic" { cmp_s.clone() } else { coarse(&cmp_s["err:".len()..]) }));
         sections.push(format!("cmp:{cmp_s}"));
 
+        // 3b. typing verdicts of the two passes: a program rejected by one interpreter for a
+        // typing reason must be rejected by the other one as well. The only tolerated gap is the
+        // documented one: off-circuit comparisons (AssertEqual / AssertNotEqual / IsEqual) accept
+        // operands that the in-circuit versions reject as unsupported.
+        if let (Off::Ok(_), Ok(Err(e))) = (&off, &cmp) {
+            let cl = classify_plonk(e);
+            let tolerated = ["AssertEqual_is_not_supported_on_", "AssertNotEqual_is_not_supported_on_", "IsEqual_is_not_supported_on_"]
+                .iter()
+                .any(|p| cl.starts_with(p));
+            if !tolerated {
+                fail("off-circuit evaluation accepts a program that the in-circuit pass rejects", json!(coarse(&cl)));
+            }
+        }
+        if let (Off::Err(cl), true) = (&off, cmp_ok) {
+            let typing = cl.contains("_is_not_supported_on_")
+                || ["other:type-convert", "other:expecting-bytes", "other:invalid-length"].contains(&cl.as_str());
+            if typing {
+                fail("off-circuit evaluation rejects a program for a typing reason but the in-circuit pass accepts it", json!(coarse(cl)));
+            }
+        }
+
         // 4. the public API: public_inputs (off-circuit values zipped with in-circuit types)
         let api = catch(|| {
             ZkirRelation::from_instructions(&c.prog).and_then(|r| r.public_inputs(w.clone()))
